@@ -193,10 +193,13 @@ type serLine struct {
 	Wr     string  `json:"wr"`    // OK | FAIL | TIMEOUT (real writer) ; REF (reference encoder)
 	WErr   string  `json:"werr"`
 	NBytes int     `json:"nbytes"`
-	Fmt    string  `json:"fmt"`
-	Rd     string  `json:"rd"`
-	RErr   string  `json:"rerr"`
-	Mesh   AMesh   `json:"mesh"`
+	// Straddle counts the list count fields of more than one byte that lie across a multiple of the
+	// delivery's period k (reference-encoded binary files; coverage information, not judged)
+	Straddle int    `json:"straddle"`
+	Fmt      string `json:"fmt"`
+	Rd       string `json:"rd"`
+	RErr     string `json:"rerr"`
+	Mesh     AMesh  `json:"mesh"`
 }
 
 func serFloatCell(raw int, sc plyref.Scale) plyref.Cell {
@@ -344,6 +347,7 @@ func runSer(enc *json.Encoder, c Case) error {
 		return fmt.Errorf("case %d: unknown via %q", c.Id, s.Via)
 	}
 	line.NBytes = len(data)
+	line.Straddle = serStraddle(s, len(data))
 	if KeepBytes != nil {
 		KeepBytes(c.Id, s.Fmt, data)
 	}
@@ -391,4 +395,31 @@ func runSer(enc *json.Encoder, c Case) error {
 		}
 	}
 	return enc.Encode(line)
+}
+
+func serStraddle(s Series, nbytes int) int {
+	cs := 0
+	switch plyref.Canon(s.Faces.CT) {
+	case "int", "uint":
+		cs = 4
+	}
+	period := s.Dlv.K
+	if s.Dlv.Kind == "file" {
+		period = 4096
+	}
+	if s.Via != "ref" || s.Fmt == "ascii" || !s.Faces.On || cs == 0 || period < 2 {
+		return 0
+	}
+	section := 0
+	for j := 0; j < s.Faces.NF; j++ {
+		section += cs + 4*len(serFace(s.Faces, s.N, j))
+	}
+	off, n := nbytes-section, 0
+	for j := 0; j < s.Faces.NF; j++ {
+		if off/period != (off+cs-1)/period {
+			n++
+		}
+		off += cs + 4*len(serFace(s.Faces, s.N, j))
+	}
+	return n
 }
